@@ -765,9 +765,11 @@ func (p *TXParamSetupReqPayload) UnmarshalBinary(data []byte) error {
 		return errors.New("lorawan: 1 byte of data is expected")
 	}
 
+	p.UplinkDwellTime = DwellTimeNoLimit
 	if data[0]&(1<<4) > 0 {
 		p.UplinkDwellTime = DwellTime400ms
 	}
+	p.DownlinkDwelltime = DwellTimeNoLimit
 	if data[0]&(1<<5) > 0 {
 		p.DownlinkDwelltime = DwellTime400ms
 	}
